@@ -1,7 +1,8 @@
 """C18 - Black-Scholes functions are total at maturity and at zero volatility.
 R1 extended-real evaluation of every price and closed-form delta at the boundary cases (t=0 / v=0) x sign of the log-moneyness
 x position of the running maximum: no NaN, value = the payoff that is then certain; R2 every bs_* function reaches the
-non-negativity guards of d1/d2 with its own (t, v); R3 interior cases are NaN-free (what the hedger evaluates before maturity)."""
+non-negativity guards of d1/d2 with its own (t, v); R3 interior cases are NaN-free (what the hedger evaluates before maturity).
+Added after the seeded-defect rounds: R1h exact limits of npdf/ncdf at +-inf from their own bodies; R3 Whalley-Wilmott width for negative gamma; R3w WhalleyWilmott(EuropeanOption).forward end to end at zero volatility before maturity."""
 import sympy as sp
 
 from .. import bsterms as B
